@@ -229,6 +229,7 @@ func c13Panics(c *Ctx, pr *PropertyRun, prop string, entries []*ssa.Function, ju
 		r.Unresolved("type internal.RawXMLValue not found")
 		return
 	}
+	tokRuleCtx = c
 	// (a) field out: non-nil stores only in EncodeRawXMLElement
 	// (b) field tok: StartElement, or CopyToken of a token that is not EndElement
 	for _, fn := range p.ModFns {
@@ -301,7 +302,40 @@ func tokStoreSafe(v ssa.Value, at *ssa.BasicBlock) bool {
 
 // notEndElementAt: a comma-ok type assertion of t to xml.EndElement exists
 // whose false edge dominates block at.
+var tokRuleCtx *Ctx
+
 func notEndElementAt(t ssa.Value, at *ssa.BasicBlock) bool {
+	// a helper that is handed the token: the test was made by its callers,
+	// every one of them
+	if prm, ok := t.(*ssa.Parameter); ok && tokRuleCtx != nil {
+		fn := prm.Parent()
+		if fn != nil && !externallyCallable(fn) && fn.Parent() == nil {
+			idx := paramIndex(fn, prm)
+			n, all := 0, true
+			for _, e := range tokRuleCtx.CG().In[fn] {
+				if e.Site == nil || !tokRuleCtx.P.InModule(e.Caller) || e.Kind == "closure" || e.Kind == "reflect" {
+					continue
+				}
+				cc := e.Site.Common()
+				var args []ssa.Value
+				if cc.IsInvoke() {
+					args = append(args, cc.Value)
+				}
+				args = append(args, cc.Args...)
+				if idx >= len(args) {
+					all = false
+					continue
+				}
+				n++
+				if !notEndElementAt(args[idx], e.Site.Block()) {
+					all = false
+				}
+			}
+			if n > 0 && all {
+				return true
+			}
+		}
+	}
 	for _, ref := range *t.Referrers() {
 		ta, ok := ref.(*ssa.TypeAssert)
 		if !ok || !ta.CommaOk || !isNamed(ta.AssertedType, "encoding/xml", "EndElement") {
@@ -388,18 +422,65 @@ func c13Recursion(c *Ctx, pr *PropertyRun, prop string, entries []*ssa.Function)
 			continue
 		}
 		r.Role("stream-reading-cycle")
-		// every recursive edge inside the component must be depth-guarded
+		// every cycle of the component passes through a depth-guarded call
+		// (counter incremented, comparison with the bound dominating it); the
+		// other calls of the component hand the counter on (a helper between
+		// two levels of the recursion)
 		ok := true
 		var badSite ssa.CallInstruction
+		rest := map[*ssa.Function][]*ssa.Function{} // edges that are not guarded
 		for _, f := range comp {
 			for _, e := range cg.Out[f] {
 				if !inComp[e.Callee] || e.Site == nil || e.Kind == "reflect" || e.Kind == "closure" {
 					continue
 				}
-				if !depthGuarded(f, e.Site) {
+				if depthGuarded(f, e.Site) {
+					continue
+				}
+				if !carriesCounter(f, e.Site) {
 					ok = false
 					badSite = e.Site
+					continue
 				}
+				rest[f] = append(rest[f], e.Callee)
+				if badSite == nil {
+					badSite = e.Site
+				}
+			}
+		}
+		if ok {
+			// the unguarded edges alone must not close a cycle
+			state := map[*ssa.Function]int{}
+			var visit func(f *ssa.Function) bool
+			visit = func(f *ssa.Function) bool {
+				switch state[f] {
+				case 1:
+					return false
+				case 2:
+					return true
+				}
+				state[f] = 1
+				for _, g := range rest[f] {
+					if !visit(g) {
+						return false
+					}
+				}
+				state[f] = 2
+				return true
+			}
+			guardedSomewhere := false
+			for _, f := range comp {
+				for _, e := range cg.Out[f] {
+					if inComp[e.Callee] && e.Site != nil && depthGuarded(f, e.Site) {
+						guardedSomewhere = true
+					}
+				}
+				if !visit(f) {
+					ok = false
+				}
+			}
+			if !guardedSomewhere {
+				ok = false
 			}
 		}
 		r.Ob(ok)
@@ -412,6 +493,31 @@ func c13Recursion(c *Ctx, pr *PropertyRun, prop string, entries []*ssa.Function)
 	if p.Control {
 		r.ExpectControl("zzVerifControlRecurse")
 	}
+}
+
+// carriesCounter: the call hands an integer parameter of the caller on
+// (unchanged or incremented) — the depth counter travels through a helper.
+func carriesCounter(f *ssa.Function, site ssa.CallInstruction) bool {
+	params := map[ssa.Value]bool{}
+	for _, p := range f.Params {
+		if b, ok := p.Type().Underlying().(*types.Basic); ok && b.Info()&types.IsInteger != 0 {
+			params[p] = true
+		}
+	}
+	for _, a := range site.Common().Args {
+		if params[a] {
+			return true
+		}
+		if bin, ok := a.(*ssa.BinOp); ok && bin.Op == token.ADD {
+			if _, isC := constInt(bin.Y); isC && params[bin.X] {
+				return true
+			}
+			if _, isC := constInt(bin.X); isC && params[bin.Y] {
+				return true
+			}
+		}
+	}
+	return false
 }
 
 // depthGuarded: the call passes `p + k` (k > 0) for an integer parameter p of
